@@ -27,6 +27,7 @@ EXTENDS Integers, Sequences, FiniteSets, TLC, Json, SequencesExt
 CONSTANTS MaxRuns,          \* length of the history
           RootSets,         \* the sets of roots a run may be given
           Modes,            \* subset of {"full", "summary", "subject"}
+          Outputs,          \* subset of {"both", "html", "inv"}: neither option / --make-html / --make-intersphinx
           AbortPoints,      \* steps before which a run may be interrupted (never in the last run)
           UnlinkBeforePage  \* TRUE: a page is never written through a link (the code); FALSE: the defect (kept to show the properties bite)
 
@@ -38,7 +39,7 @@ Link(to) == [t |-> "link", role |-> "", run |-> 0, to |-> to]
 
 VARIABLES fs, hist, cur, pc
 vars == <<fs, hist, cur, pc>>
-Idle == [roots |-> {}, mode |-> "", subject |-> "", abort |-> ""]
+Idle == [roots |-> {}, mode |-> "", subject |-> "", abort |-> "", out |-> ""]
 RunNo == Len(hist) + 1
 
 Init == fs = [n \in Names |-> None] /\ hist = <<>> /\ cur = Idle /\ pc = "idle"
@@ -50,15 +51,17 @@ PageName(R, r) == IF R = {r} THEN "index" ELSE r           \* Documentable.url o
 Subjects == CASE cur.mode = "full" -> cur.roots [] cur.mode = "summary" -> {} [] OTHER -> {cur.subject}
 
 Start == /\ pc = "idle" /\ Len(hist) < MaxRuns
-         /\ \E R \in RootSets, m \in Modes, a \in AbortPoints \cup {"never"} :
+         /\ \E R \in RootSets, m \in Modes, a \in AbortPoints \cup {"never"}, o \in Outputs :
                /\ (Len(hist) = MaxRuns - 1 => a = "never")
+               /\ (o = "inv" => m = "full")                       \* the html options say nothing without html
                /\ \E s \in (IF m = "subject" THEN R ELSE {""}) :
-                     cur' = [roots |-> R, mode |-> m, subject |-> s, abort |-> a]
-         /\ pc' = "prep" /\ UNCHANGED <<fs, hist>>
+                     cur' = [roots |-> R, mode |-> m, subject |-> s, abort |-> a, out |-> o]
+               /\ pc' = IF o = "inv" THEN "inv" ELSE "prep"
+         /\ UNCHANGED <<fs, hist>>
 
 Snapshot(f) == LET ns == SetToSeq(Names) IN [j \in 1..Len(ns) |-> [n |-> ns[j], t |-> f[ns[j]].t, role |-> f[ns[j]].role, run |-> f[ns[j]].run, to |-> f[ns[j]].to]]
 End(completed, f) == /\ hist' = Append(hist, [roots |-> SetToSeq(cur.roots), mode |-> cur.mode, subject |-> cur.subject, abort |-> cur.abort,
-                                              completed |-> completed, fs |-> Snapshot(f)])
+                                              out |-> cur.out, completed |-> completed, fs |-> Snapshot(f)])
                      /\ cur' = Idle /\ pc' = "idle"
 
 Abort == pc \notin {"idle"} /\ pc = cur.abort /\ End(FALSE, fs) /\ UNCHANGED fs
@@ -88,7 +91,7 @@ WritePages(f, S) == IF S = {} THEN f
                          IN WritePages(Write(f0, n, File("page:" \o r, RunNo)), S \ {r})
 Pages == /\ pc = "pages" /\ Live
          /\ fs' = WritePages(fs, Subjects)
-         /\ pc' = "inv" /\ UNCHANGED <<hist, cur>>
+         /\ pc' = "inv" /\ UNCHANGED <<hist, cur>>          \* also with --make-html alone: driver.make sets makeintersphinx
 Inv == /\ pc = "inv" /\ Live
        /\ fs' = Write(fs, "inv", File("inv", RunNo))
        /\ End(TRUE, fs')
@@ -105,17 +108,17 @@ LastRoots == {LastRun.roots[j] : j \in 1..Len(LastRun.roots)}
 Collision(R) == Cardinality(R) > 1 /\ "index" \in R
 
 \* every page of the run is where its url says, written by this run
-PagesAtTheirNames == AfterCompleted =>
+PagesAtTheirNames == AfterCompleted /\ LastRun.out # "inv" =>
    \A r \in (CASE LastRun.mode = "full" -> LastRoots [] LastRun.mode = "summary" -> {} [] OTHER -> {LastRun.subject}) :
       Resolve(fs, PageName(LastRoots, r)) = File("page:" \o r, Len(hist))
 \* with several roots index.html is the project index of this run
-IndexIsTheIndex == AfterCompleted /\ LastRun.mode # "subject" /\ Cardinality(LastRoots) > 1 /\ ~(Collision(LastRoots) /\ LastRun.mode = "full")
+IndexIsTheIndex == AfterCompleted /\ LastRun.out # "inv" /\ LastRun.mode # "subject" /\ Cardinality(LastRoots) > 1 /\ ~(Collision(LastRoots) /\ LastRun.mode = "full")
                       => Resolve(fs, "index") = File("projindex", Len(hist))
 \* a single root is also reachable under its own name
-RootReachableByName == AfterCompleted /\ LastRun.mode = "full" /\ Cardinality(LastRoots) = 1
+RootReachableByName == AfterCompleted /\ LastRun.out # "inv" /\ LastRun.mode = "full" /\ Cardinality(LastRoots) = 1
                           => \A r \in LastRoots : Resolve(fs, r) = File("page:" \o r, Len(hist))
 \* after a complete run no link dangles
-NoDanglingLink == AfterCompleted /\ LastRun.mode = "full" => \A n \in Names : fs[n].t = "link" => fs[fs[n].to].t = "file"
+NoDanglingLink == AfterCompleted /\ LastRun.out # "inv" /\ LastRun.mode = "full" => \A n \in Names : fs[n].t = "link" => fs[fs[n].to].t = "file"
 InventoryWritten == AfterCompleted => fs["inv"] = File("inv", Len(hist))
 \* a step touches the names it is responsible for and no other (a page is not written THROUGH an old link into another page)
 Responsible == CASE pc = "summ" -> {"sum"} \cup (IF Cardinality(cur.roots) > 1 THEN {"index"} ELSE {})
